@@ -17,11 +17,16 @@ class AuthBench:
     def run_case(self, pol, a, form, expect, label, replay_extra=None):
         """expect: 'accept' | 'reject' | None.  Returns (impl_line, model_line)."""
         chk = self.chk
-        il = impl.verify_auth(pol, impl.auth_cred_value(form, a))
+        val = impl.auth_cred_value(form, a)
+        il = impl.verify_auth(pol, val)
         ml = None
         chk.evals += 1
         rp = {"entry": "verify_authentication_response", "label": label, "form": form, "policy": pol.describe(),
               "credential": a.as_dict(), "id_text": a.id_text, "type": a.typ, "impl": il}
+        # the very same call once more (same argument objects): an outcome is a function of the arguments
+        again = impl.verify_auth(pol, val)
+        if again != il:
+            chk.violation(f"the same call repeated gives another outcome ({label}): {il[:50]} then {again[:50]}", f"repeat-call auth {label.split('+')[0]}", dict(rp, second_outcome=again))
         if replay_extra:
             rp.update(replay_extra)
         if self.R:
